@@ -9,5 +9,7 @@ pub mod model;
 pub mod geninst;
 pub mod genmod;
 pub mod refparse;
+pub mod mutate;
+pub mod rs;
 pub mod dump;
 pub mod mon;
